@@ -137,6 +137,10 @@ func (e *Engine) verifyFunc(fn *ssa.Function, c *Contract, prop string) (rep *Fu
 	}
 	e.entry = st.clone()
 	e.entryParams = vars
+	e.frame = nil
+	if c.HasMod {
+		e.frame = e.resolveFrame(c, vars, pkg)
+	}
 	rep.EntryPC = append([]*Term{}, st.pc...)
 	fr := e.newFrame(fn, nil, c)
 	fr.top = true
@@ -210,26 +214,20 @@ func (e *Engine) finishReport(rep *FuncReport) {
 	rep.Notes = e.notes
 }
 
-// frameObligations: every heap component changed on this path and not named by modifies is unchanged for pre-existing objects.
-func (e *Engine) frameObligations(c *Contract, key string, st *State, vars map[string]SVal, pkg *types.Package) {
-	type objItem struct {
-		key string
-		ref *Term
-	}
-	allowedKeys := map[string]bool{}
-	var objs []objItem
-	all := false
+// resolveFrame evaluates the modifies clause in the entry state.
+func (e *Engine) resolveFrame(c *Contract, vars map[string]SVal, pkg *types.Package) *frameInfo {
+	fi := &frameInfo{keys: map[string]bool{}}
 	env := &SpecEnv{e: e, pre: e.entry, post: e.entry, vars: vars, pkg: pkg, paramsFirst: true}
 	for _, m := range c.Modifies {
 		m = strings.TrimSpace(m)
 		switch {
 		case m == "*":
-			all = true
+			fi.all = true
 		case m == "big":
-			allowedKeys["BigVal"] = true
+			fi.keys["BigVal"] = true
 		default:
 			if _, ok := e.db.Ghosts[m]; ok {
-				allowedKeys["G:"+m] = true
+				fi.keys["G:"+m] = true
 				continue
 			}
 			ex, err := parseExpr(m)
@@ -243,26 +241,26 @@ func (e *Engine) frameObligations(c *Contract, key string, st *State, vars map[s
 				case "elems":
 					sl := v.T.Underlying().(*types.Slice)
 					for _, l := range leaves(sl.Elem()) {
-						objs = append(objs, objItem{elemKey(sl.Elem(), l.path), v.V.Fs[0].T})
+						fi.objs = append(fi.objs, frameObj{elemKey(sl.Elem(), l.path), v.V.Fs[0].T})
 					}
 				case "map":
 					mt := v.T.Underlying().(*types.Map)
-					objs = append(objs, objItem{mapDomKey(mt), v.V.T}, objItem{mapCardKey(mt), v.V.T})
+					fi.objs = append(fi.objs, frameObj{mapDomKey(mt), v.V.T}, frameObj{mapCardKey(mt), v.V.T})
 					for _, l := range leaves(mt.Elem()) {
-						objs = append(objs, objItem{mapValKey(mt, l.path), v.V.T})
+						fi.objs = append(fi.objs, frameObj{mapValKey(mt, l.path), v.V.T})
 					}
 				case "big":
-					objs = append(objs, objItem{"BigVal", v.V.T})
+					fi.objs = append(fi.objs, frameObj{"BigVal", v.V.T})
 				case "obj":
 					pt, ok := v.T.Underlying().(*types.Pointer)
 					if !ok {
 						unsupp("obj() of non-pointer")
 					}
 					if isBigInt(pt.Elem()) {
-						objs = append(objs, objItem{"BigVal", v.V.T})
+						fi.objs = append(fi.objs, frameObj{"BigVal", v.V.T})
 					} else {
 						for _, l := range leaves(pt.Elem()) {
-							objs = append(objs, objItem{fieldKey(pt.Elem(), l.path), v.V.T})
+							fi.objs = append(fi.objs, frameObj{fieldKey(pt.Elem(), l.path), v.V.T})
 						}
 					}
 				default:
@@ -278,7 +276,7 @@ func (e *Engine) frameObligations(c *Contract, key string, st *State, vars map[s
 					}
 					bp := pathString(pl.Typ, pl.Path)
 					for _, l := range leaves(ft) {
-						objs = append(objs, objItem{fieldKey(pl.Typ, bp+l.path), pl.Ref})
+						fi.objs = append(fi.objs, frameObj{fieldKey(pl.Typ, bp+l.path), pl.Ref})
 					}
 				} else {
 					parts := strings.Split(m, ".")
@@ -289,7 +287,7 @@ func (e *Engine) frameObligations(c *Contract, key string, st *State, vars map[s
 					path := "." + strings.Join(parts[2:], ".")
 					for _, l := range leaves(T) {
 						if l.path == path || strings.HasPrefix(l.path, path+".") || strings.HasPrefix(l.path, path+"#") {
-							allowedKeys[fieldKey(T, l.path)] = true
+							fi.keys[fieldKey(T, l.path)] = true
 						}
 					}
 				}
@@ -298,15 +296,22 @@ func (e *Engine) frameObligations(c *Contract, key string, st *State, vars map[s
 			}
 		}
 	}
-	if all {
+	return fi
+}
+
+// frameObligations: every heap component changed on this path and not named by modifies is unchanged for pre-existing objects.
+func (e *Engine) frameObligations(c *Contract, key string, st *State, vars map[string]SVal, pkg *types.Package) {
+	fi := e.frame
+	if fi == nil || fi.all {
 		return
 	}
 	if st.epoch != 0 {
 		e.emit(&Obligation{Kind: "frame", Fn: key, Label: "whole-heap", PC: st.pc, Unsupp: "an unspecified callee or loop havocked the whole heap; frame cannot be established", Trace: st.trace})
 		return
 	}
+	done := map[string]bool{}
 	for _, k := range sortedKeys(st.heap) {
-		if allowedKeys[k] {
+		if fi.keys[k] {
 			continue
 		}
 		final := st.heap[k]
@@ -315,26 +320,13 @@ func (e *Engine) frameObligations(c *Contract, key string, st *State, vars map[s
 		if final == entry {
 			continue
 		}
-		var goal *Term
-		if strings.HasPrefix(k, "G:") || strings.HasPrefix(k, "GV:") {
-			goal = Eq(final, entry)
-		} else {
-			r := BoundVar("fr_r", SInt)
-			cond := And(Gt(r, IntLit(0)), Lt(r, alloc0()))
-			for _, o := range objs {
-				if o.key == k {
-					cond = And(cond, Ne(r, o.ref))
-				}
-			}
-			goal = Forall([]*Term{r}, Implies(cond, Eq(Select(final, r), Select(entry, r))))
-		}
-		e.emit(&Obligation{Kind: "frame", Fn: key, Label: shortHeapKey(k), PC: st.pc, Goal: goal, Src: "unchanged " + k, Trace: st.trace})
+		done[k] = true
+		e.emit(&Obligation{Kind: "frame", Fn: key, Label: shortHeapKey(k), PC: st.pc, Goal: e.frameGoal(st, k), Src: "unchanged " + k, Trace: st.trace})
 	}
 	for k := range st.hv {
-		if !allowedKeys[k] {
-			if _, still := st.heap[k]; !still {
-				// havocked and never re-read: still a (potential) change
-				e.emit(&Obligation{Kind: "frame", Fn: key, Label: shortHeapKey(k), PC: st.pc, Unsupp: "component havocked by a callee contract but not in modifies", Trace: st.trace})
+		if !fi.keys[k] && !done[k] {
+			if _, known := heapSorts[k]; known {
+				e.emit(&Obligation{Kind: "frame", Fn: key, Label: shortHeapKey(k), PC: st.pc, Goal: e.frameGoal(st, k), Src: "unchanged " + k, Trace: st.trace})
 			}
 		}
 	}
